@@ -64,6 +64,10 @@ def gen_cfg(r, i):
         cfg["like_offset"] = float(r.choice([-1e5, -2e3, 3e3, 1e6]))
     if mode == "final" or r.random() < 0.25:
         cfg["n_final_samples"] = int(cfg["n_samples"] * r.choice([0.5, 2]))
+    if mode in ("adaptive", "fixed", "ramp") and "like_offset" not in cfg and cfg["like_width"] <= 1.0 and i % 3 == 0:
+        # a hard constraint coded inside the likelihood: log L = -inf on part of the proposal's support, so some particles of the INITIAL
+        # population have zero likelihood - the recorded series are still those of the recorded populations
+        cfg.update(like_cut=float(r.choice([-0.5, 0.0, 0.4])), target_efficiency=cfg.get("target_efficiency", 0.3) if not isinstance(cfg.get("target_efficiency"), tuple) else cfg["target_efficiency"])
     cfg["checkpoint_every"] = int(r.choice([1, 1, 2, 3]))
     if (i // 8) % 2 == 1 and mode in ("adaptive", "fixed", "ramp", "final"):
         # the other runnable SMC kernel: it fills one more diagnostic series (mcmc_autocorr)
@@ -77,7 +81,9 @@ def check_history(chk, case, res, resumed=False):
     h = res["sampler"].history
     rec = smcrun.history_record(h)
     its = len(rec["beta"])
-    sig = {"resumed": resumed, "n_final": full["n_final_samples"] is not None and full["n_final_samples"] != full["n_samples"]}
+    # (the size that matters is that of the population the run really carries: a resumed call's own `n_samples` is not it)
+    pop_size = len(rec["pops"][0]["ll"]) if rec["pops"] else full["n_samples"]
+    sig = {"resumed": resumed, "n_final": full["n_final_samples"] is not None and full["n_final_samples"] != pop_size}
     for name in ("ess", "ess_target", "eff_target", "ratio", "var"):
         if len(rec[name]) != its:
             chk.fail("one entry per iteration in every series", case, f"{name}: {len(rec[name])} entries for {its} iterations",
@@ -194,8 +200,12 @@ def run_one(chk, cfg, mode, drv_lines, keep, with_resume):
         src = smcrun.make_source(r1, route, tmp)
         chk.count("resumed_runs")
         chk.count(f"route:{route}")
-        r2 = smcrun.resume_smc(cfg, src, record_checkpoints=True) if src is not None else smcrun.run_smc(cfg, record_checkpoints=True)
-        c2 = {"cfg": cfg, "mode": mode, "fault_at_likelihood_call": k, "route": route, "resumed_from_iteration": r1["ckpts"][-1]["iteration"] if r1["ckpts"] else None}
+        # every other resume asks for ANOTHER number of samples than the checkpoint holds (the top-level default is 1000): the record of the
+        # continued run is still the record of the populations it stores
+        cfg_r = cfg if j % 2 == 0 or src is None else {**cfg, "n_samples": int(cfg["n_samples"] * (2 if j % 4 == 1 else 0.5))}
+        r2 = smcrun.resume_smc(cfg_r, src, record_checkpoints=True) if src is not None else smcrun.run_smc(cfg, record_checkpoints=True)
+        c2 = {"cfg": cfg, "mode": mode, "fault_at_likelihood_call": k, "route": route, "resumed_from_iteration": r1["ckpts"][-1]["iteration"] if r1["ckpts"] else None,
+              "n_samples_of_the_resumed_call": cfg_r["n_samples"]}
         chk.case(None, key + f"/fault{k}")
         if r2["status"] != "done":
             chk.fail("resumed run total", c2, repr(r2.get("exc")), {"clause": "raise", "resumed": True})
